@@ -621,6 +621,32 @@ fn const_j<'tcx>(tcx: TyCtxt<'tcx>, body: &Body<'tcx>, c: &ConstOperand<'tcx>) -
                 _ => {}
             }
         }
+        Some(ConstValue::Scalar(mir::interpret::Scalar::Ptr(ptr, _))) => {
+            // reference to a small promoted/static value (e.g. `&Dimensionality::ThreeD` in assert_eq!): pointee bytes
+            if let ty::Ref(_, pointee, _) = ty.kind() {
+                if let Ok(layout) = tcx.layout_of(env.as_query_input(*pointee)) {
+                    let size = layout.size.bytes() as usize;
+                    let (prov, offset) = ptr.into_raw_parts();
+                    if size <= 64 && size > 0 {
+                        if let mir::interpret::GlobalAlloc::Memory(alloc) = tcx.global_alloc(prov.alloc_id()) {
+                            let a = alloc.inner();
+                            let off = offset.bytes() as usize;
+                            if a.provenance().ptrs().is_empty() && off + size <= a.len() {
+                                let bytes = a.inspect_with_uninit_and_ptr_outside_interpreter(off..off + size);
+                                let hex: String = bytes.iter().map(|b| format!("{:02x}", b)).collect();
+                                o.set("deref_bytes", J::Str(hex));
+                                o.set("deref_ty", J::Str(ty_s(*pointee)));
+                                if let ty::Adt(def, _) = pointee.kind() {
+                                    if def.is_enum() {
+                                        o.set("deref_enum", J::Bool(true));
+                                    }
+                                }
+                            }
+                        }
+                    }
+                }
+            }
+        }
         Some(ConstValue::ZeroSized) => {
             o.set("zst", J::Bool(true));
         }
